@@ -69,17 +69,25 @@ def delay_with_mapper_(
                     delays.add(d)
 
                     def on_next(_: Any) -> None:
+                        if d.is_disposed:
+                            return
                         observer.on_next(x)
                         delays.remove(d)
                         done()
 
+                    def on_error(error: Exception) -> None:
+                        if not d.is_disposed:
+                            observer.on_error(error)
+
                     def on_completed() -> None:
+                        if d.is_disposed:
+                            return
                         observer.on_next(x)
                         delays.remove(d)
                         done()
 
                     d.disposable = delay.subscribe(
-                        on_next, observer.on_error, on_completed, scheduler=scheduler
+                        on_next, on_error, on_completed, scheduler=scheduler
                     )
 
                 def on_completed() -> None:
